@@ -145,8 +145,8 @@ Theorem seal_pegged s a s' d :
   legacy_net s && (s_height s <? 978392) = false ->
   (forall t k, In t (sorted_txs s) -> tx_pool t = Some k -> In k K /\ LDk SO k <> fst k /\ LDk SO k <> snd k) ->
   NoDup (key_pairs (sorted_txs s)) ->
-  (forall t c, In t (sorted_txs s) -> s_coins s !! key0 t = Some c -> as_declared c (out0 t)) ->
-  (forall t c, In t (sorted_txs s) -> s_coins s !! key1 t = Some c -> as_declared c (out1 t)) ->
+  (forall t c, In t (sorted_txs s) -> s_coins s !! key0 t = Some c -> as_declared t c (out0 t)) ->
+  (forall t c, In t (sorted_txs s) -> s_coins s !! key1 t = Some c -> as_declared t c (out1 t)) ->
   nsum (map (fun t => cd_value (out0 t)) (sorted_txs s)) < U128 ->
   nsum (map (fun t => cd_value (out1 t)) (sorted_txs s)) < U128 ->
   (forall s2 s3, process_swaps (create_builtins s) = Ok s2 -> process_deposits SO s2 = Ok s3 ->
